@@ -488,6 +488,12 @@ def run_shard(sh):
     for be in item["backends"]:
       vals = [o[i][be] for o in outs]
       sh.count("texts_compared", len(vals))
+      for v in vals:
+        if v.get("again_same"): sh.count("second_translations_in_one_process_compared")
+        elif "again_differs" in v:
+          sh.violation("translating-the-same-design-again-in-the-same-process-gives-different-text", {"backend": be, "item": item.get("type"), "diff": v["again_differs"]}, case=("again", i, be)); break
+        elif "again_raised" in v:
+          sh.count("second_translation_raised"); sh.sample({"second_translation_raised": v["again_raised"]})
       if "text" not in vals[0]:
         sh.count("rejected_by_translator")
         if item["type"] in ("specgen", "param") and not item.get("top") and be == "sv": pass
